@@ -41,6 +41,8 @@ func (dec *tomlDecoder) Init(reader io.Reader) error {
 		Kind: MappingNode,
 		Tag:  "!!map",
 	}
+	// a decoder reads one stream after another (several files on the command line)
+	dec.finished = false
 	return nil
 }
 
